@@ -148,7 +148,7 @@ func TestVerifC52(t *testing.T) {
 		depth      int
 	}
 	plans := vx.Pick(r,
-		[]plan{{"ooo", "small", 3}, {"base", "medium", 2}},
+		[]plan{{"base", "medium", 2}, {"ooo", "medium", 2}, {"ooo", "small", 3}},
 		[]plan{{"ooo", "medium", 3}, {"base", "medium", 3}, {"ooo+snap", "medium", 3}, {"snap", "small", 4}, {"ooo", "small", 4}, {"oooneg", "small", 4}, {"ooo", "small", 5}})
 	for _, p := range plans {
 		if r.Expired() {
